@@ -46,7 +46,13 @@ def dmax(d, a, b):
 def build_model(topology, n, kind):
     js = cm.ratio_tree_json(topology, n) if kind == 'ratio' else cm.shift_tree_json(topology, n)
     js['taxa'] = cm.taxa_json(n)
-    return cm.build(js)
+    tree, dic = cm.build(js)
+    if kind == 'shift-smooth':
+        # smooth-maximum variant (k > 0) of the increment transform
+        from torchtree.evolution.tree_height_transform import DifferenceNodeHeightTransform
+
+        tree.transform = DifferenceNodeHeightTransform(tree, k=2.0)
+    return tree, dic
 
 
 def set_sampling_times(tree, V, n, batch=None):
@@ -70,6 +76,7 @@ def make_body(topology, n, kind, batched):
         set_sampling_times(tree, V, n)
         S = [V[f's{i}'] for i in range(n)]
         goals = []
+        from symtorch.axioms import ground_axioms as _ga
         # ---- parameters (batched: two independent rows)
         rows = []
         for b in range(B):
@@ -79,6 +86,8 @@ def make_body(topology, n, kind, batched):
                 rows.append([V[f'x{b}_{j}'] for j in range(n - 1)])
         ids = torch.tensor(rows if batched else rows[0], dtype=torch.int64)
         x = from_ids(ids)
+        if kind == 'shift-smooth' and False:
+            pass
         if kind == 'ratio':
             if batched:
                 dic['tree.ratios'].tensor = x[..., :-1]
@@ -109,27 +118,38 @@ def make_body(topology, n, kind, batched):
                         if c in children:
                             r = rows[b][c - n]
                             oh[c] = d.add(bound[c], d.mul(r, d.sub(oh[p], bound[c])))
-            else:
+            elif kind == 'shift':
                 for p in sorted(children):
                     oh[p] = d.add(dmax(d, oh[children[p][0]], oh[children[p][1]]), rows[b][p - n])
+            else:
+                two = d.const(2.0)
+                for p in sorted(children):
+                    l_, r_ = oh[children[p][0]], oh[children[p][1]]
+                    lse = d.log(d.add(d.exp(d.mul(l_, two)), d.exp(d.mul(r_, two))))
+                    oh[p] = d.add(d.div(lse, two), rows[b][p - n])
             # (1) tips at their sampling time
             goals.append(Goal(tag + 'tips sit at their sampling times',
                               d.and_(*[d.eq(h[i], S[i]) for i in range(n)]), signature=f'{kind}:tips'))
             # (2) validity
-            goals.append(Goal(tag + 'every parent at least as old as its children',
-                              d.and_(*[d.le(h[c], h[p]) for c, p in parent.items()]), signature=f'{kind}:order'))
+            from symtorch.axioms import ground_axioms as _ga
+
+            og = d.and_(*[d.le(h[c], h[p]) for c, p in parent.items()])
+            goals.append(Goal(tag + 'every parent at least as old as its children', og,
+                              hyps=_ga(d, [og], monotone=True) if kind == 'shift-smooth' else [], signature=f'{kind}:order'))
             # (3) branch lengths (indexed by the node below the branch)
             goals.append(Goal(tag + 'branch length == parent height - child height',
                               d.and_(*[d.eq(blb[c], d.sub(h[p], h[c])) for c, p in parent.items()]),
                               signature=f'{kind}:branch_lengths'))
             # (4) the documented parameterisation itself
-            goals.append(Goal(tag + 'heights == documented parameterisation (independent recursion)',
-                              d.and_(*[d.eq(h[v], oh[v]) for v in sorted(children)]), signature=f'{kind}:formula'))
+            fg = d.and_(*[d.eq(h[v], oh[v]) for v in sorted(children)])
+            goals.append(Goal(tag + 'heights == documented parameterisation (independent recursion)', fg,
+                              hyps=_ga(d, [fg]) if kind == 'shift-smooth' else [], signature=f'{kind}:formula'))
         # (5) inverse
         heights_internal = nh[..., n:]
         back = tree.transform.inv(heights_internal)
-        goals.append(Goal('inv(forward(x)) == x',
-                          d.and_(*[d.eq(a, b_) for a, b_ in zip(back._ids.reshape(-1).tolist(), ids.reshape(-1).tolist())]),
+        ig = d.and_(*[d.eq(a, b_) for a, b_ in zip(back._ids.reshape(-1).tolist(), ids.reshape(-1).tolist())]) \
+            if back._ids.numel() == ids.numel() else d.FALSE
+        goals.append(Goal('inv(forward(x)) == x', ig, hyps=_ga(d, [ig]) if kind == 'shift-smooth' else [],
                           signature=f'{kind}:inverse'))
         if tuple(back.shape) != tuple(x.shape):
             goals.append(Goal('inverse shape', d.FALSE, signature=f'{kind}:inverse-shape'))
@@ -138,8 +158,8 @@ def make_body(topology, n, kind, batched):
             y = cm.var_tensor(V, [f'y{j}' for j in range(n - 1)])
             xx = tree.transform.inv(y)
             yy = tree.transform(xx)
-            goals.append(Goal('forward(inv(y)) == y',
-                              d.and_(*[d.eq(a, b_) for a, b_ in zip(yy._ids.tolist(), y._ids.tolist())]),
+            yg = d.and_(*[d.eq(a, b_) for a, b_ in zip(yy._ids.tolist(), y._ids.tolist())])
+            goals.append(Goal('forward(inv(y)) == y', yg, hyps=_ga(d, [yg]) if kind == 'shift-smooth' else [],
                               signature=f'{kind}:forward-inverse'))
         # (6) heights_to_branch_lengths helper
         if kind == 'ratio' and not batched:
@@ -248,9 +268,13 @@ def replay(topology, n, kind, batched, vals):
                     if c in children:
                         oh[c] = bound[c] + rows[b][c - n] * (oh[p] - bound[c])
         else:
+            import math as _m
+
             oh = {i: float(S[i]) for i in range(n)}
             for p in sorted(children):
-                oh[p] = max(oh[children[p][0]], oh[children[p][1]]) + rows[b][p - n]
+                l_, r_ = oh[children[p][0]], oh[children[p][1]]
+                mx = max(l_, r_) if kind == 'shift' else _m.log(_m.exp(2.0 * l_) + _m.exp(2.0 * r_)) / 2.0
+                oh[p] = mx + rows[b][p - n]
         for v in children:
             if abs(oh[v] - h[v]) > tol * max(1, abs(oh[v])):
                 return True, f'height of node {v}: {h[v]} != documented {oh[v]}'
@@ -391,6 +415,9 @@ def tasks_for(tier):
                 ts.append(('tree', topo, n, kind, False))
                 if n <= 3 or (tier == 'thorough' and n <= 4):
                     ts.append(('tree', topo, n, kind, True))
+            if n == 3:
+                ts.append(('tree', topo, n, 'shift-smooth', False))
+                ts.append(('tree', topo, n, 'shift-smooth', True))
     for kind in ('ratio', 'shift'):
         for move in ('cpu', 'to'):
             ts.append(('device', cm.balanced(4), 4, kind, move))
